@@ -374,7 +374,9 @@ def run(ctx):
         "`any` requests 0-3 on 1-2 names, deadlines/releases/slacks from small ranges so that ties are frequent, tasks spread "
         "over 1-3 graphs) -> real schedule() vs the model: decisions exactly, and final availability of the virtual pools; "
         "distinct = distinct case; non-trivial = >= 3 offered tasks and (a tie in the policy's key or a task not placed). "
-        "Inputs with the signature of known finding F10 (preemptive, >= 2 graphs, a running task) are kept out.")
+        "Inputs with the signature of known finding F10 (preemptive, >= 2 graphs, a running task) are kept out. "
+        "S-greedy-wl: the first 400 (quick) / 2000 cases again, decisions vs the same policy model instantiated with the shared "
+        "worker model of C04 (Model/Res.v + Worker.v).")
     seen = set()
     nt = 0
     dist = {"by_policy": {p: 0 for p in POL}, "preemptive": 0, "enforce": 0, "single_worker_pools": 0, "with_unplaced": 0,
@@ -399,6 +401,21 @@ def run(ctx):
     ctx.cov["input_distribution"] = dist
     ctx.sample({"stream": "S-greedy", "case": cases[0], "implementation": impl[0]["result"], "offered": impl[0]["offered"]})
     stream_greedy(ctx, cases, impl)
+    # the same policy model instantiated with the shared worker model (Model/Res.v + Worker.v) on a part of the cases
+    if getattr(ctx, "greedy_model_ok", True):
+        k = 400 if quick else 2000
+        try:
+            cs = [(g_input(c, r), r["result"], c) for c, r in zip(cases[:k], impl[:k])]
+            mism = ctx.model_stream("S-greedy-wl", HEADER + "\nFrom Verif Require Import Proofs.GreedyP4.", "ginput",
+                                    "g_observe_wl", cs)
+            for idx, mv in mism[:3]:
+                ctx.violation("Sgreedywl_%d" % idx,
+                              {"stream": "S-greedy-wl", "case": cases[idx], "offered": impl[idx]["offered"],
+                               "init": impl[idx]["init"], "implementation": impl[idx]["result"], "model": mv,
+                               "what": "%s.schedule() differs from the policy model run over the shared worker model"
+                                       % POL[cases[idx]["policy"]]})
+        except core.ModelEvalError as e:
+            ctx.broken.append({"kind": "correspondence", "name": "S-greedy-wl", "detail": str(e)[-600:]})
     # the live cluster must never be touched (cheap to look at here too)
     for i, r in enumerate(impl):
         if not r["unchanged"]:
